@@ -344,6 +344,14 @@ def op_strfun(job):
         proto = BaseGopherProtocol("", None, None, None, None, config)
         for s in job["inputs"]:
             out.append(proto.slashnormalize(s))
+    elif fn == "virtual_split":
+        from pygopherd.handlers.virtual import Virtual
+        from pygopherd.handlers.url import URLTypeRewriter
+        vfs = hbase.VFS_Real(config)
+        for s in job["inputs"]:
+            v = Virtual(s, "", None, config, None, vfs)
+            r = URLTypeRewriter(s, "", None, config, None, vfs)
+            out.append([v.selectorreal, v.selectorargs, bool(r.canhandlerequest()), s[2:]])
     elif fn == "getfspath":
         for root, s in job["inputs"]:
             config.set("pygopherd", "root", root)
